@@ -164,7 +164,11 @@ pub fn oracle(_ctx: &RunCtx, spec: &WipeSpec, log: &mut CaseLog) -> Result<(), S
         for (j, v) in t.values.iter().enumerate() {
             let off = v - t.promises[j].unwrap_or(0);
             let window: Vec<u64> = (bits - 16..bits).map(|i| (off >> i) & 1).collect();
-            if window.iter().any(|b| *b == 1) && window.iter().any(|b| *b == 0) {
+            // at least four ones and four zeros: a sparser window (e.g. a single one followed by zeros) also occurs in unrelated
+            // memory, e.g. in the 256-byte signed-digit rows that curve25519-dalek's variable-time multiscalar code builds
+            // for the scalars 0 and 1 - a transformed representation that is outside this oracle (see DESIGN.md section 3, C20)
+            let ones = window.iter().filter(|b| **b == 1).count();
+            if ones >= 4 && ones <= 12 {
                 let enc = |f: &dyn Fn(u64) -> Scalar| -> Vec<u8> { window.iter().flat_map(|b| f(*b).to_bytes()).collect() };
                 secrets.push(Secret {
                     name: format!("the top 16 bits of value[{}] - promise as 0/1 scalars", j),
